@@ -5,17 +5,17 @@ use mahf::{
     components::{boundary, initialization, mapping, swarm::pso as sp, Block, Scope},
     conditions::LessThanN,
     heuristics::pso,
-    identifier::Global,
+    identifier::{Global, Identifier},
     lens::ValueOf,
     state::common::{Iterations, Populations, Progress},
     verif::StepEvent,
     Configuration, State,
 };
-use mv::{hash_of, num_workers, observe::run_observed, problems::*, Reporter, SplitMix64};
+use mv::{hash_of, num_workers, problems::*, Reporter, SplitMix64};
 use serde_json::json;
 
 type P = Real;
-type W = sp::InertiaWeight<sp::ParticleVelocitiesUpdate>;
+type W<I> = sp::InertiaWeight<sp::ParticleVelocitiesUpdate<I>>;
 
 #[derive(Clone, Debug, serde::Serialize)]
 struct Params {
@@ -40,6 +40,10 @@ struct Params {
     cond: u8,
     /// a second, smaller swarm (size, passes) run to completion inside a scope at the end of every pass of the outer swarm
     nested: Option<(u32, u32)>,
+    /// the nested swarm runs among the repairs (before the weight update of the pass) instead of after the memory update
+    nested_among_repairs: bool,
+    /// the whole swarm under the non-default identifier `identifier::A` (its own evaluator, memories and weight)
+    ident_a: bool,
 }
 
 #[derive(Default)]
@@ -69,10 +73,10 @@ struct Recs {
     closed: Vec<Rec>,
 }
 
-fn sizes_ok(state: &State<P>) -> Option<String> {
+fn sizes_ok<I: Identifier>(state: &State<P>) -> Option<String> {
     let n = state.populations().current().len();
-    let v = state.try_borrow::<sp::ParticleVelocities<Global>>().ok().map(|v| v.len());
-    let pb = state.try_borrow::<sp::BestParticles<P, Global>>().ok().map(|v| v.len());
+    let v = state.try_borrow::<sp::ParticleVelocities<I>>().ok().map(|v| v.len());
+    let pb = state.try_borrow::<sp::BestParticles<P, I>>().ok().map(|v| v.len());
     match (v, pb) {
         (Some(v), Some(pb)) if v == n && pb == n => None,
         (Some(0), Some(0)) => None, // before the swarm initialisation ran
@@ -80,7 +84,7 @@ fn sizes_ok(state: &State<P>) -> Option<String> {
     }
 }
 
-fn observe(recs: &Mutex<Recs>, prm: &Params, ev: StepEvent<'_, P>, state: &State<P>) {
+fn observe<I: Identifier>(recs: &Mutex<Recs>, prm: &Params, ev: StepEvent<'_, P>, state: &State<P>) {
     let depth = mv::observe::scope_depth(state);
     let mut all = recs.lock().unwrap();
     // scopes that have been left took their swarm with them
@@ -105,16 +109,16 @@ fn observe(recs: &Mutex<Recs>, prm: &Params, ev: StepEvent<'_, P>, state: &State
         "ParticleVelocitiesUpdate" => {
             if before {
                 r.x_before = cur_solutions();
-                r.v_before = state.borrow::<sp::ParticleVelocities<Global>>().iter().cloned().collect();
-                r.pbest_before = state.borrow::<sp::BestParticles<P, Global>>().iter().map(|i| i.solution().clone()).collect();
-                r.gbest_before = state.borrow::<sp::BestParticle<P, Global>>().as_ref().map(|i| i.solution().clone()).unwrap_or_default();
-                r.w_before = state.get_value::<W>();
+                r.v_before = state.borrow::<sp::ParticleVelocities<I>>().iter().cloned().collect();
+                r.pbest_before = state.borrow::<sp::BestParticles<P, I>>().iter().map(|i| i.solution().clone()).collect();
+                r.gbest_before = state.borrow::<sp::BestParticle<P, I>>().as_ref().map(|i| i.solution().clone()).unwrap_or_default();
+                r.w_before = state.get_value::<W<I>>();
                 r.have_before = true;
             } else if r.have_before {
                 r.have_before = false;
                 r.velocity_updates += 1;
                 let x_after = cur_solutions();
-                let v_after: Vec<Vec<f64>> = state.borrow::<sp::ParticleVelocities<Global>>().iter().cloned().collect();
+                let v_after: Vec<Vec<f64>> = state.borrow::<sp::ParticleVelocities<I>>().iter().cloned().collect();
                 if x_after.len() != r.x_before.len() || v_after.len() != r.x_before.len() {
                     let m = format!("particles {} -> {}, velocities {}", r.x_before.len(), x_after.len(), v_after.len());
                     r.violations.push(("velocity-update:collection-sizes-differ".into(), m));
@@ -173,7 +177,7 @@ fn observe(recs: &Mutex<Recs>, prm: &Params, ev: StepEvent<'_, P>, state: &State
             // the loop's current progress, computed from the iteration counter and not read back from the state the
             // loop condition maintains
             let progress = state.try_get_value::<Iterations>().map(|k| k as f64 / prm.n as f64).unwrap_or(f64::NAN);
-            let w = state.get_value::<W>();
+            let w = state.get_value::<W<I>>();
             let _ = outer;
             let want = (prm.end_w - prm.start_w) * progress + prm.start_w;
             if w.to_bits() != want.to_bits() && !((w - want).abs() <= 1e-12) {
@@ -186,8 +190,8 @@ fn observe(recs: &Mutex<Recs>, prm: &Params, ev: StepEvent<'_, P>, state: &State
         "GlobalBestParticleUpdate" if !before => {
             // runs right after the personal-best update (and once in the swarm initialisation)
             r.memory_updates += 1;
-            let pb = state.borrow::<sp::BestParticles<P, Global>>();
-            let gb = state.borrow::<sp::BestParticle<P, Global>>();
+            let pb = state.borrow::<sp::BestParticles<P, I>>();
+            let gb = state.borrow::<sp::BestParticle<P, I>>();
             if pb.len() != r.history.len() || pb.is_empty() {
                 return;
             }
@@ -227,7 +231,7 @@ fn observe(recs: &Mutex<Recs>, prm: &Params, ev: StepEvent<'_, P>, state: &State
     }
     // (after the harness component that removes a nested swarm's population the innermost memories belong to a population that is gone)
     if !before && r.loop_started && name != "PopTop" {
-        if let Some(m) = sizes_ok(state) {
+        if let Some(m) = sizes_ok::<I>(state) {
             r.violations.push(("sizes:collections-do-not-have-one-entry-per-particle".into(), format!("after {name}: {m}")));
         }
     }
@@ -258,6 +262,20 @@ impl mahf::Component<P> for PopTop {
     }
 }
 
+/// The swarm initialisation / memory update blocks, assembled from the identifier-aware components
+/// (`ParticleSwarmInit::<I>::new_with_id` and `ParticleSwarmUpdate::<I>::new_with_id` build the `Global` ones whatever
+/// `I` is - a swarm under another identifier then fails its requirement check before anything runs; not judged here).
+fn swarm_init<I: Identifier>(v_max: f64) -> Result<Box<dyn mahf::Component<P>>, String> {
+    Ok(Block::new(vec![
+        Box::new(sp::ParticleVelocitiesInit::<I>::from_params(v_max).map_err(|e| e.to_string())?) as Box<dyn mahf::Component<P>>,
+        Box::new(sp::PersonalBestParticlesInit::<I>::from_params()),
+        Box::new(sp::GlobalBestParticleUpdate::<I>::from_params()),
+    ]))
+}
+fn swarm_update<I: Identifier>() -> Box<dyn mahf::Component<P>> {
+    Block::new(vec![Box::new(sp::PersonalBestParticlesUpdate::<I>::from_params()) as Box<dyn mahf::Component<P>>, Box::new(sp::GlobalBestParticleUpdate::<I>::from_params())])
+}
+
 fn loop_cond(prm: &Params) -> Box<dyn mahf::Condition<P>> {
     match prm.cond {
         0 => LessThanN::iterations(prm.n),
@@ -265,7 +283,7 @@ fn loop_cond(prm: &Params) -> Box<dyn mahf::Condition<P>> {
     }
 }
 
-fn build(prm: &Params) -> Result<Configuration<P>, String> {
+fn build<I: Identifier>(prm: &Params) -> Result<Configuration<P>, String> {
     if prm.via_template {
         return pso::real_pso::<P>(
             pso::RealProblemParameters { num_particles: prm.swarm, start_weight: prm.start_w, end_weight: prm.end_w, c_one: prm.c1, c_two: prm.c2, v_max: prm.v_max },
@@ -273,32 +291,34 @@ fn build(prm: &Params) -> Result<Configuration<P>, String> {
         )
         .map_err(|e| format!("{e:#}"));
     }
-    let state_update: Box<dyn mahf::Component<P>> = match prm.nested {
-        None => sp::ParticleSwarmUpdate::new(),
+    let nested_scope: Option<Box<dyn mahf::Component<P>>> = match prm.nested {
+        None => None,
         Some((m, k)) => {
-            let inner = pso::pso::<P, Global>(
+            let inner = pso::pso::<P, I>(
                 pso::Parameters {
-                    particle_init: sp::ParticleSwarmInit::new(prm.v_max).map_err(|e| e.to_string())?,
-                    particle_update: sp::ParticleVelocitiesUpdate::new(0.6, prm.c1, prm.c2, prm.v_max).map_err(|e| e.to_string())?,
+                    particle_init: swarm_init::<I>(prm.v_max)?,
+                    particle_update: sp::ParticleVelocitiesUpdate::<I>::new_with_id(0.6, prm.c1, prm.c2, prm.v_max).map_err(|e| e.to_string())?,
                     constraints: boundary::Saturation::new(),
                     inertia_weight_update: None,
-                    state_update: sp::ParticleSwarmUpdate::new(),
+                    state_update: swarm_update::<I>(),
                 },
                 LessThanN::iterations(k),
             );
-            Block::new(vec![
-                sp::ParticleSwarmUpdate::new(),
-                Scope::new(vec![initialization::RandomSpread::new(m), mahf::components::evaluation::PopulationEvaluator::new(), inner, Box::new(PopTop) as Box<dyn mahf::Component<P>>]),
-            ])
+            Some(Scope::new(vec![initialization::RandomSpread::new(m), mahf::components::evaluation::PopulationEvaluator::<I>::new_with(), inner, Box::new(PopTop) as Box<dyn mahf::Component<P>>]))
         }
     };
-    let inner = pso::pso::<P, Global>(
+    let (constraints, state_update): (Box<dyn mahf::Component<P>>, Box<dyn mahf::Component<P>>) = match (nested_scope, prm.nested_among_repairs) {
+        (None, _) => (boundary::Saturation::new(), swarm_update::<I>()),
+        (Some(scope), true) => (Block::new(vec![boundary::Saturation::new(), scope]), swarm_update::<I>()),
+        (Some(scope), false) => (boundary::Saturation::new(), Block::new(vec![swarm_update::<I>(), scope])),
+    };
+    let inner = pso::pso::<P, I>(
         pso::Parameters {
-            particle_init: sp::ParticleSwarmInit::new(prm.v_max).map_err(|e| e.to_string())?,
-            particle_update: sp::ParticleVelocitiesUpdate::new(prm.start_w, prm.c1, prm.c2, prm.v_max).map_err(|e| e.to_string())?,
-            constraints: boundary::Saturation::new(),
+            particle_init: swarm_init::<I>(prm.v_max)?,
+            particle_update: sp::ParticleVelocitiesUpdate::<I>::new_with_id(prm.start_w, prm.c1, prm.c2, prm.v_max).map_err(|e| e.to_string())?,
+            constraints,
             inertia_weight_update: if prm.with_weight_update {
-                Some(mapping::Linear::new(prm.start_w, prm.end_w, ValueOf::<Progress<ValueOf<Iterations>>>::new(), ValueOf::<W>::new()))
+                Some(mapping::Linear::new(prm.start_w, prm.end_w, ValueOf::<Progress<ValueOf<Iterations>>>::new(), ValueOf::<W<I>>::new()))
             } else {
                 None
             },
@@ -306,7 +326,7 @@ fn build(prm: &Params) -> Result<Configuration<P>, String> {
         },
         loop_cond(prm),
     );
-    let mut b = Configuration::builder().do_(initialization::RandomSpread::new(prm.swarm)).evaluate().update_best_individual();
+    let mut b = Configuration::builder().do_(initialization::RandomSpread::new(prm.swarm)).evaluate_with::<I>().update_best_individual();
     if prm.warm_start {
         b = b.do_(Box::new(InjectBest));
     }
@@ -314,8 +334,16 @@ fn build(prm: &Params) -> Result<Configuration<P>, String> {
 }
 
 fn run(rep: &Reporter, prm: &Params) {
+    if prm.ident_a {
+        run_as::<mahf::identifier::A>(rep, prm)
+    } else {
+        run_as::<Global>(rep, prm)
+    }
+}
+
+fn run_as<I: Identifier>(rep: &Reporter, prm: &Params) {
     let problem = Real::new(prm.dim, prm.lo, prm.hi, prm.f);
-    let cfg = match build(prm) {
+    let cfg = match build::<I>(prm) {
         Ok(c) => c,
         Err(e) => {
             rep.violation("pso:constructor-rejects-valid-parameters", json!({"params": prm, "error": e}));
@@ -324,7 +352,8 @@ fn run(rep: &Reporter, prm: &Params) {
     };
     let rec = Mutex::new(Recs::default());
     // the initial evaluation happens before the PSO block: seed the history from the first evaluator too
-    let res = run_observed(&cfg, &problem, prm.seed, false, None, |ev, _p, s| observe(&rec, prm, ev, s));
+    // (the evaluator is registered under the swarm's identifier as well)
+    let res = mv::observe::run_observed_prepared(&cfg, &problem, prm.seed, false, None, |state| state.insert_evaluator_as::<I>(mahf::problems::evaluate::Sequential::<P>::new()), |ev, _p, s| observe::<I>(&rec, prm, ev, s));
     rep.case();
     rep.nontrivial(hash_of(&format!("{prm:?}")));
     let mut all = rec.lock().unwrap();
@@ -389,6 +418,8 @@ fn main() {
             f: *rng.pick(&[RealFn::Sphere, RealFn::Rastrigin, RealFn::Plateau, RealFn::ShiftedSphere, RealFn::AllInf]),
             cond: (rng.chance(0.3)) as u8,
             nested: if !via_template && rng.chance(0.25) { Some((*rng.pick(&[1u32, 2, 3, 5]), 1 + rng.below(3) as u32)) } else { None },
+            nested_among_repairs: rng.bool(),
+            ident_a: !via_template && rng.chance(0.3),
         });
     }
     std::thread::scope(|s| {
